@@ -20,12 +20,15 @@ FRAGMENT = ("modelled fragment: destinations flag/int/string/LevelCounter/vector
             "Model/Regex.lean on a restricted ECMAScript subset: literals, '.', classes, \\d \\w \\s, * + ?, |, groups, "
             "^ $), cardinalities none/max/exact/range, constraints requires/excludes, handler constraints "
             "all-of/any-of/one-of and the value constraints differ (int/string) / disjoint (two vector<int>), "
-            "abbreviations on/off, argument file and environment variable sources, evaluation through Groups; not "
-            "modelled: sub-groups, bracket handlers, inversion, value mode 'command', callables, formats, "
+            "abbreviations on/off, argument file and environment variable sources, evaluation through Groups, "
+            "sub-groups as a handler tree of depth 2 (sub-group arguments with mandatory flag / cardinality / "
+            "requires-excludes constraints, the sub handler's own abbreviation flag, lookup over both containers, "
+            "also through Groups); not modelled: nested sub-groups of depth > 2, usage/summary output of sub-groups "
+            "(C18 covers usage), bracket handlers, inversion, value mode 'command', callables, formats, "
             "pair/range/other destinations, floating point, patterns outside the subset (back-references, look-ahead, "
             "counted repetition, POSIX classes)")
 TRUST = [
-    "hand-written models CelmaVerif/Model/ProgArgs/{Iter,Handler,Groups}.lean, Model/Keys.lean, Model/ArgString.lean, "
+    "hand-written models CelmaVerif/Model/ProgArgs/{Iter,Handler,Groups,SubGroups}.lean, Model/Keys.lean, Model/KeysSub.lean, Model/ArgString.lean, "
     "tied to handler.cpp / arg_list_iterator.hpp / typed_arg*.{hpp,cpp} / constraint_*.cpp / cardinality_*.cpp / "
     "check_*.hpp / groups.cpp by the correspondence run (harness/prog_args.cpp: real Handler/Groups objects, "
     "ASan+UBSan) on every invocation",
@@ -36,26 +39,30 @@ TRUST = [
 ]
 
 PROPERTIES = {
-    "C01": {"lean_module": "CelmaVerif.Props.C01", "kind": "functional", "trusted": TRUST,
+    "C01": {"lean_module": "CelmaVerif.Props.C01", "obligation_modules": ["CelmaVerif.Props.C04s"],
+            "kind": "functional", "trusted": TRUST,
             "assumptions": ["claimed for the modelled fragment only", "floating-point destinations are not modelled"]},
-    "C02": {"lean_module": "CelmaVerif.Props.C02", "obligation_modules": ["CelmaVerif.Props.C02b"],
+    "C02": {"lean_module": "CelmaVerif.Props.C02", "obligation_modules": ["CelmaVerif.Props.C02b", "CelmaVerif.Props.C04s", "CelmaVerif.Props.C08s"],
             "kind": "relational", "trusted": TRUST,
             "assumptions": ["claimed for the modelled fragment only"]},
-    "C03": {"lean_module": "CelmaVerif.Props.C03", "kind": "functional", "trusted": TRUST,
+    "C03": {"lean_module": "CelmaVerif.Props.C03", "obligation_modules": ["CelmaVerif.Props.C04s"],
+            "kind": "functional", "trusted": TRUST,
             "assumptions": ["claimed for the modelled fragment only",
                             "order-sensitive rules in the documented sense: requiring/excluding argument first"]},
-    "C04": {"lean_module": "CelmaVerif.Props.C04", "kind": "relational", "translators": [handler_alloc.translate],
+    "C04": {"lean_module": "CelmaVerif.Props.C04", "obligation_modules": ["CelmaVerif.Props.C04s"],
+            "kind": "relational", "translators": [handler_alloc.translate],
             "trusted": TRUST + [
                 "translate/handler_alloc.py (regex over handler.cpp: size expression and owner type of the two "
                 "program-name copies); ArgString2Array::copyArguments as modelled in Model/ArgString.lean (C07_argv_safe*)",
                 "heap discipline of std:: and Boost objects used by the handler is not modelled: that part rests on the "
                 "ASan/UBSan verdict of the correspondence runs"],
             "assumptions": ["argc >= 1 (a program name is always present)"]},
-    "C07": {"lean_module": "CelmaVerif.Props.C07", "obligation_modules": ["CelmaVerif.Props.C07b"],
+    "C07": {"lean_module": "CelmaVerif.Props.C07", "obligation_modules": ["CelmaVerif.Props.C07b", "CelmaVerif.Props.C04s"],
             "kind": "functional", "trusted": TRUST,
             "assumptions": ["claimed for the modelled fragment only",
                             "the std::getline loop over the bytes of the argument file is modelled by fileLines (exercised by the fileraw= cases: last line terminated or not); no NUL inside a word"]},
-    "C08": {"lean_module": "CelmaVerif.Props.C08", "kind": "functional", "trusted": TRUST,
+    "C08": {"lean_module": "CelmaVerif.Props.C08", "obligation_modules": ["CelmaVerif.Props.C08s"],
+            "kind": "functional", "trusted": TRUST,
             "assumptions": ["claimed for the modelled fragment only",
                             "constraint partners and the arguments of one handler constraint live in the same member"]},
 }
@@ -95,6 +102,8 @@ def file_opt(rng, lines):
 
 def make_case(rng, cid, what):
     """what: set of batches wanted: valid, broken, sources, groups, raw"""
+    if what & {"valid", "broken", "groups", "raw"} and rng.random() < 0.3:
+        return subgroup_case(rng, cid, what)
     if "sources" in what and rng.random() < 0.3:
         return source_multi_case(rng, cid)
     if ("valid" in what or "broken" in what) and rng.random() < 0.12:
@@ -338,6 +347,397 @@ def make_case(rng, cid, what):
                     opts = "env=" + G.hx(e)
             add("pa eval %s -- %s" % (opts, words_hex(ws)), None, "raw-eval")
     return Case(cid, lines)
+
+
+SG_PAIRS = [("out", "output"), ("out", "outfile"), ("in", "input"), ("input", "input-file"), ("val", "value"),
+            ("value", "values"), ("num", "number"), ("max", "maxlen"), ("in", "input-dir")]
+SG_VALUES = ["abc", "x", "hello", "Peter", "v1", "007", "q", "A"]
+SG_CARDS = [None, None, None, "exact:2", "range:1:2", "range:2:3", "max:1"]
+
+
+def sg_config(rng):
+    """main handler: 2-4 plain arguments and 1-2 sub-group arguments, each sub handler with 2-3 arguments whose keys
+    may equal keys of the main handler or of the other sub handler; long keys with common prefixes, often a plain long
+    key that is a proper prefix of a sub-group long key or vice versa"""
+    abbr = rng.randint(0, 1)
+    n_plain, n_sub = rng.randint(2, 4), rng.randint(1, 2)
+    n_top = n_plain + n_sub
+    shorts = rng.sample(G.SHORTS, n_top)
+    longs = [None] * n_top
+    forced = set()
+    if rng.random() < 0.65:
+        a, b = rng.choice(SG_PAIRS)
+        ip, isub = rng.randrange(n_plain), n_plain + rng.randrange(n_sub)
+        if rng.random() < 0.5:
+            longs[ip], longs[isub] = a, b        # the plain key is a proper prefix of the sub-group key
+        else:
+            longs[ip], longs[isub] = b, a
+        forced = {ip, isub}
+    pool = [l for l in G.LONGS if l not in longs]
+    rng.shuffle(pool)
+    for k in range(n_top):
+        if longs[k] is None:
+            longs[k] = pool.pop()
+    keys = []
+    for k in range(n_top):
+        form = rng.choice(["short", "long", "both", "both"])
+        if k in forced and form == "short":
+            form = "both"
+        keys.append((shorts[k] if form != "long" else None, longs[k] if form != "short" else None))
+    kinds = ["flag", "int", "str", "vec"]
+    plain = []
+    for k in range(n_plain):
+        plain.append(G.SgArg(keys[k][0], keys[k][1], kinds[k] if rng.random() < 0.5 else rng.choice(kinds)))
+    if not any(a.kind == "flag" for a in plain):
+        plain[rng.randrange(n_plain)].kind = "flag"
+    # (a mandatory flag is refused at definition time by TypedArg< bool>::setIsMandatory: std::logic_error)
+    nonflag = [a for a in plain if a.kind != "flag"]
+    if nonflag and rng.random() < 0.3:
+        rng.choice(nonflag).mandatory = True
+    subs = []
+    top_shorts = [x[0] for x in keys if x[0]]
+    top_longs = [x[1] for x in keys if x[1]]
+    for j in range(n_sub):
+        n = rng.randint(2, 3)
+        used_s, used_l, sargs = set(), set(), []
+        for _ in range(n):
+            prev_s = [a.short for sb in subs for a in sb.args if a.short]
+            prev_l = [a.long for sb in subs for a in sb.args if a.long]
+            for _try in range(20):
+                sh = rng.choice(top_shorts + prev_s) if (top_shorts + prev_s) and rng.random() < 0.5 else rng.choice(G.SHORTS)
+                lg = rng.choice(top_longs + prev_l) if (top_longs + prev_l) and rng.random() < 0.4 else rng.choice(G.LONGS)
+                if sh not in used_s and lg not in used_l:
+                    break
+            else:
+                continue
+            form = rng.choice(["short", "long", "both", "both"])
+            a = G.SgArg(sh if form != "long" else None, lg if form != "short" else None, rng.choice(kinds))
+            if a.short:
+                used_s.add(a.short)
+            if a.long:
+                used_l.add(a.long)
+            # a mandatory argument of the SUB handler: by the code's design the sub handler's own end checks never
+            # run, so leaving it out is NOT an error (verified on the real harness: `sg-sub-mandatory-ignored`)
+            if a.kind != "flag" and rng.random() < 0.25:
+                a.mandatory = True
+            sargs.append(a)
+        kj = keys[n_plain + j]
+        sb = G.SgSub(kj[0], kj[1], sargs, abbr=rng.randint(0, 1), mandatory=rng.random() < 0.3, card=rng.choice(SG_CARDS))
+        if rng.random() < 0.35:
+            ip = rng.randrange(n_plain)
+            pa = plain[ip]
+            spell = rng.choice([x for x in (pa.short, pa.long, pa.keyspec()) if x])
+            if rng.random() < 0.5:
+                sb.req = (ip, spell)
+            else:
+                sb.excl = (ip, spell)
+        subs.append(sb)
+    return plain, subs, abbr
+
+
+def sg_key_words(rng, a, level_longs, abbr, exact=False):
+    """spellings of the key of `a` in a handler whose long keys are level_longs"""
+    forms = []
+    if a.short:
+        forms.append("-" + a.short)
+    if a.long:
+        forms.append("--" + a.long)
+        if abbr and not exact:
+            for k in range(1, len(a.long)):
+                p = a.long[:k]
+                if p not in level_longs and sum(1 for l in level_longs if l.startswith(p)) == 1 and not p.endswith("-"):
+                    forms.append("--" + p)
+    return forms
+
+
+def sg_use(rng, a, level_longs, abbr):
+    """the words of one use of argument `a` (an SgArg) and nothing else"""
+    key = rng.choice(sg_key_words(rng, a, level_longs, abbr))
+    if a.kind == "flag":
+        return [key]
+    if a.kind == "vec":
+        vals = [str(rng.randint(0, 40)) for _ in range(rng.randint(1, 3))]
+        r = rng.random()
+        if r < 0.5:
+            return [key] + vals                                   # free values
+        if r < 0.75 or not key.startswith("--"):
+            return [key, ",".join(vals[:2])] + vals[2:]
+        return ["%s=%s" % (key, ",".join(vals[:2]))] + vals[2:]
+    v = str(rng.randint(0, 99)) if a.kind == "int" else rng.choice(SG_VALUES)
+    if key.startswith("--"):
+        return [key, v] if rng.random() < 0.6 else ["%s=%s" % (key, v)]
+    return [key, v] if rng.random() < 0.6 else [key + v]
+
+
+def subgroup_case(rng, cid, what):
+    """sub-group arguments (`Handler::addArgument( spec, Handler& subGroup, desc)`): a main handler with plain and
+    sub-group arguments, each sub handler with its own arguments and abbreviation flag.  Every line carries the
+    expectation computed by the word-level reading of the documented behaviour in gen_progargs (`sg_expect`): after the
+    sub-group key the elements go to the sub handler as long as it takes them, the first one it does not know goes
+    back to the main handler; a key is looked up over both containers (exact first, an abbreviation must be unique
+    over both); mandatory flag / cardinality / constraints of the sub-group argument are rules of the main handler;
+    the sub handler's own end checks never run.  Through groups: the same expectation."""
+    plain, subs, abbr = sg_config(rng)
+    lines = ["pa cfg begin abbr=%d" % abbr]
+    # definition order: a unified sequence of plain arguments and sub-group blocks (the indices stay: plain arguments
+    # keep their relative order, sub-group arguments theirs)
+    seq = [("p", i) for i in range(len(plain))]
+    for j in range(len(subs)):
+        seq.insert(rng.randint(0, len(seq)) if rng.random() < 0.5 else len(seq), ("s", j))
+    pos_s = [k for k, x in enumerate(seq) if x[0] == "s"]
+    for k, j in zip(pos_s, range(len(subs))):
+        seq[k] = ("s", j)
+    for typ, i in seq:
+        lines += [plain[i].line()] if typ == "p" else subs[i].lines()
+    lines.append("pa cfg end")
+    top_longs = [a.long for a in plain if a.long] + [s.long for s in subs if s.long]
+    out = []                                       # (label, words, must)
+
+    def add(label, words, must=None):
+        out.append((label, list(words), must))
+
+    def use_p(i):
+        return sg_use(rng, plain[i], top_longs, abbr)
+
+    def key_s(j, exact=False):
+        return rng.choice(sg_key_words(rng, subs[j], top_longs, abbr, exact))
+
+    def use_s(j, a):
+        sb = subs[j]
+        return sg_use(rng, sb.args[a], [x.long for x in sb.args if x.long], sb.abbr)
+
+    def visits_wanted(j, ok=True):
+        sb = subs[j]
+        c = sb.card
+        lo = 1 if sb.mandatory else 0
+        if c is None:
+            return rng.choice([lo, 1, 1, 2])
+        p = c.split(":")
+        if p[0] == "exact":
+            return int(p[1])
+        if p[0] == "range":
+            return rng.randint(int(p[1]), int(p[2]))
+        return rng.randint(lo, int(p[1]))
+
+    def scenario(skip_sub=None, nvis=None, partner="obey", plain_subset=None):
+        """a line that obeys every rule as far as this generator can arrange it: plain uses, visits with 0..n uses of
+        the sub handler's arguments (every scalar / flag at most once over all visits), in a random order; `partner`:
+        obey / excl-after / req-missing / req-before"""
+        chosen = [i for i, a in enumerate(plain) if a.mandatory or rng.random() < 0.5]
+        if plain_subset is not None:
+            chosen = list(plain_subset)
+        first, last = [], []
+        blocks = []
+        for j, sb in enumerate(subs):
+            n = visits_wanted(j) if nvis is None or j not in nvis else nvis[j]
+            if skip_sub == j:
+                n = 0
+            avail = list(range(len(sb.args)))
+            rng.shuffle(avail)
+            for v in range(n):
+                ws = [key_s(j)]
+                k = rng.choice([0, 0, 1, 1, 2, 3])
+                for _ in range(min(k, len(avail))):
+                    a = avail.pop()
+                    ws += use_s(j, a)
+                blocks.append(ws)
+            if n > 0:
+                for con, typ in ((sb.req, "r"), (sb.excl, "x")):
+                    if con is None:
+                        continue
+                    ip = con[0]
+                    if ip in chosen:
+                        chosen.remove(ip)
+                    if ip in first or ip in last:
+                        continue
+                    if typ == "r":
+                        if partner == "req-before":
+                            first.append(ip)
+                        elif partner != "req-missing":
+                            last.append(ip)
+                    else:
+                        if partner == "excl-after":
+                            last.append(ip)
+                        elif rng.random() < 0.5:
+                            first.append(ip)
+        for i in chosen:
+            if i not in first and i not in last:
+                blocks.append(use_p(i))
+        rng.shuffle(blocks)
+        ws = []
+        for i in first:
+            ws += use_p(i)
+        for b in blocks:
+            ws += b
+        for i in last:
+            ws += use_p(i)
+        return ws
+
+    mand_plain = [i for i, a in enumerate(plain) if a.mandatory]
+
+    def prefix_ctx(j=None):
+        """words before a tested tail: the mandatory plain arguments, one visit (key only) of every other mandatory
+        sub-group argument, and for a tested sub-group argument with a lower bound of 2 one earlier visit of it"""
+        ws = []
+        for i in mand_plain:
+            ws += use_p(i)
+        for jj, sb in enumerate(subs):
+            if jj != j and sb.mandatory:
+                ws += [key_s(jj, exact=True)] * (2 if sb.card in ("exact:2", "range:2:3") else 1)
+        if j is not None and subs[j].card in ("exact:2", "range:2:3"):
+            ws = [key_s(j, exact=True)] + ws
+        return ws
+
+    def partner_tail(j):
+        sb = subs[j]
+        return use_p(sb.req[0]) if sb.req else []
+
+    if "valid" in what or "groups" in what or not (what & {"broken", "raw"}):
+        for _ in range(rng.randint(3, 5)):
+            add("sg-mixed", scenario())
+        for j, sb in enumerate(subs):
+            flags = [i for i, a in enumerate(plain) if a.kind == "flag"]
+            ctx = prefix_ctx(j)
+            # the sub-group key as the LAST word; followed by nothing of the sub handler: the next key is the main's
+            add("sg-key-last", ctx + [key_s(j)] + partner_tail(j))
+            add("sg-key-last", scenario(skip_sub=j) + [key_s(j)])
+            if flags:
+                add("sg-zero-uses", ctx + [key_s(j)] + use_p(rng.choice(flags)) + partner_tail(j))
+            others = [i for i in range(len(plain)) if i not in mand_plain]
+            if others:
+                add("sg-zero-uses", ctx + [key_s(j)] + use_p(rng.choice(others)) + partner_tail(j))
+            # bundles: -<sub key><sub handler's short key> [value], -<main flag><sub key>
+            if sb.short:
+                for a in sb.args:
+                    if a.short and a.kind != "vec":
+                        w = "-" + sb.short + a.short
+                        v = [] if a.kind == "flag" else [str(rng.randint(0, 99)) if a.kind == "int" else rng.choice(SG_VALUES)]
+                        add("sg-bundle", ctx + ([w] + v if rng.random() < 0.6 or not v else [w + v[0]]) + partner_tail(j))
+                fl = [i for i in flags if plain[i].short]
+                if fl:
+                    i = rng.choice(fl)
+                    add("sg-bundle-main-first", ctx + ["-" + plain[i].short + sb.short] + partner_tail(j))
+            # a second visit; the sub handler keeps what the first visit stored
+            if len(sb.args) >= 2 and sb.card not in ("max:1",):
+                a1, a2 = rng.sample(range(len(sb.args)), 2)
+                mid = use_p(rng.choice(range(len(plain))))
+                add("sg-second-visit", prefix_ctx(None) + [key_s(j)] + use_s(j, a1) + mid + [key_s(j)] + use_s(j, a2) + partner_tail(j))
+            vec = [k for k, a in enumerate(sb.args) if a.kind == "vec"]
+            if vec:
+                k = rng.choice(vec)
+                key = rng.choice(sg_key_words(rng, sb.args[k], [x.long for x in sb.args if x.long], sb.abbr))
+                tail = use_p(rng.choice(range(len(plain)))) if rng.random() < 0.7 else []
+                add("sg-free-values", ctx + [key_s(j), key, "1", "2", "3"] + tail + partner_tail(j))
+            # a mandatory argument of the sub handler that is not used: no error (the sub handler's end checks never run)
+            if any(a.mandatory for a in sb.args):
+                add("sg-sub-mandatory-ignored", ctx + [key_s(j)] + partner_tail(j))
+    if "broken" in what or "groups" in what:
+        for j, sb in enumerate(subs):
+            ctx = prefix_ctx(j)
+            if sb.mandatory:
+                add("sg-mandatory-missing", scenario(skip_sub=j), "throw")
+                add("sg-mandatory-missing", [w for i in mand_plain for w in use_p(i)], "throw")
+            if sb.card:
+                p = sb.card.split(":")
+                if p[0] == "exact":
+                    bad = [int(p[1]) - 1, int(p[1]) + 1]
+                elif p[0] == "range":
+                    bad = [int(p[1]) - 1, int(p[2]) + 1]
+                else:
+                    bad = [int(p[1]) + 1]
+                for n in bad:
+                    if n >= 1:
+                        add("sg-card-%s-%d" % (p[0], n), scenario(nvis={j: n}), "throw")
+                        add("sg-card-%s-%d" % (p[0], n), [w for i in mand_plain for w in use_p(i)] + [key_s(j, exact=True)] * n, "throw")
+            add("sg-unknown-after-sub", ctx + [key_s(j), rng.choice(["--bogus", "-Z", "--zzz=1"])], "throw")
+            add("sg-stray-value", ctx + [key_s(j), rng.choice(["7", "x", "1,2"])], "throw")
+            need = [a for a in range(len(sb.args)) if sb.args[a].kind in ("int", "str")]
+            if need:
+                a = rng.choice(need)
+                key = rng.choice(sg_key_words(rng, sb.args[a], [x.long for x in sb.args if x.long], sb.abbr))
+                add("sg-missing-value", ctx + [key_s(j), key], "throw")
+            if sb.excl:
+                add("sg-excl-after", scenario(partner="excl-after"), "throw")
+                add("sg-excl-after", ctx + [key_s(j, exact=True)] + use_p(sb.excl[0]), None)
+            if sb.req:
+                add("sg-req-missing", scenario(partner="req-missing"), "throw")
+                add("sg-req-before", scenario(partner="req-before"), "throw")
+    if "valid" in what or "broken" in what or "groups" in what:
+        # prefixes of the sub-group long keys and of the plain long keys they share a prefix with; exact keys
+        pl = []
+        for j, sb in enumerate(subs):
+            if not sb.long:
+                continue
+            ctx = prefix_ctx(j)
+            for k in range(1, len(sb.long) + 1):
+                pl.append(("sg-prefix-subkey" if k < len(sb.long) else "sg-exact-subkey", ctx + ["--" + sb.long[:k]] + partner_tail(j)))
+            for i, a in enumerate(plain):
+                if a.long and (a.long.startswith(sb.long) or sb.long.startswith(a.long)):
+                    v = {"flag": [], "int": ["5"], "str": ["abc"], "vec": ["1,2"]}[a.kind]
+                    for k in range(1, len(a.long) + 1):
+                        pl.append(("sg-prefix-plainkey" if k < len(a.long) else "sg-exact-plainkey",
+                                   [w for m in mand_plain if m != i for w in use_p(m)] + ["--" + a.long[:k]] + v))
+            # prefixes of the sub handler's long keys under the SUB handler's abbreviation flag
+            for a in sb.args:
+                if a.long:
+                    v = {"flag": [], "int": ["5"], "str": ["abc"], "vec": ["1,2"]}[a.kind]
+                    for k in range(1, len(a.long) + 1):
+                        pl.append(("sg-prefix-inner" if k < len(a.long) else "sg-exact-inner",
+                                   ctx + [key_s(j, exact=True), "--" + a.long[:k]] + v + partner_tail(j)))
+        rng.shuffle(pl)
+        for lbl, ws in pl[:14]:
+            add(lbl, ws)
+    res = []
+    group_src = []
+    for label, ws, must in out:
+        exp, lookups = G.sg_expect(plain, subs, abbr, ws)
+        if must == "throw" and exp != "throw":
+            continue              # the mutation did not break a rule in this configuration (e.g. the key was taken by the sub handler)
+        res.append("pa eval x-lbl=%s x-exp=%s -- %s" % (label, G.hx(exp), words_hex(ws)))
+        group_src.append((label, ws, exp, lookups))
+    if "groups" in what:
+        top = [a.long for a in plain] + [s.long for s in subs]
+        for _ in range(rng.randint(2, 3)):
+            k = rng.randint(1, 3)
+            am = [rng.randrange(k) for _ in plain]
+            sm = [rng.randrange(k) for _ in subs]
+            for j, sb in enumerate(subs):          # constraint partners of a sub-group argument live in its member
+                for con in (sb.req, sb.excl):
+                    if con is not None:
+                        am[con[0]] = sm[j]
+            # two sub-group arguments naming the same partner: one member for all of them
+            for j, sb in enumerate(subs):
+                for con in (sb.req, sb.excl):
+                    if con is not None and am[con[0]] != sm[j]:
+                        sm = [am[con[0]]] * len(subs)
+                        for sb2 in subs:
+                            for c2 in (sb2.req, sb2.excl):
+                                if c2 is not None:
+                                    am[c2[0]] = sm[0]
+            mem_of = am + sm
+            members = sorted(set(mem_of))
+            orders = ["".join(map(str, members)), "".join(map(str, reversed(members)))]
+            picks = rng.sample(group_src, min(len(group_src), 10))
+            for label, ws, exp, lookups in picks:
+                # known open finding group-abbreviation-shadows-exact: members resolve abbreviations on their own, in
+                # registration order; a typed long name whose candidates (keys it is a prefix of) live in different
+                # members is not sent through the group
+                if abbr and any(len(set(mem_of[x] for x, l in enumerate(top) if l and l.startswith(n))) > 1 for n in lookups):
+                    continue
+                od = rng.choice(orders)
+                res.append("pa group x-lbl=group-%s x-exp=%s members=%s submembers=%s order=%s -- %s" % (
+                    label, G.hx(exp), "".join(map(str, am)), "".join(map(str, sm)), od, words_hex(ws)))
+    if "raw" in what:
+        allargs = plain + [a for sb in subs for a in sb.args]
+        for _ in range(rng.randint(3, 6)):
+            j = rng.randrange(len(subs))
+            ws = G.raw_argv(rng, allargs)
+            ws.insert(rng.randint(0, len(ws)), key_s(j))
+            if rng.random() < 0.4:
+                ws.append(key_s(rng.randrange(len(subs))))           # a sub-group key as the last word
+            res.append("pa eval x-lbl=sg-raw -- %s" % words_hex(ws))
+            res.append("pa tokens " + words_hex(ws))
+    return Case(cid, [" ".join(l.split()) for l in lines + res])
 
 
 def group_freevalue_case(rng, cid):
@@ -863,7 +1263,7 @@ def judge(prop, case, impl, model):
 
 
 def shrink_keep(line):
-    return line.startswith("pa cfg") or line.startswith("pa arg") or line.startswith("pa glob")
+    return line.startswith("pa cfg") or line.startswith("pa arg") or line.startswith("pa glob") or line.startswith("pa sub")
 
 
 def nontrivial_key(op, result):
@@ -987,6 +1387,39 @@ def group_listvalue_case(rng, cid):
     return Case(cid, lines + out)
 
 
+SG_EXH_PLAIN = [G.SgArg("m", "main", "flag"), G.SgArg(None, "out", "str")]
+SG_EXH_SUBS = [G.SgSub("s", "output", [G.SgArg("a", None, "flag"), G.SgArg("n", "num", "int"), G.SgArg("l", None, "vec")], abbr=1)]
+SG_EXH_VOCAB = ["-s", "--output", "--outp", "--out", "--ou", "-a", "-n", "3", "-sa", "-m", "--bogus", "-l", "--", "x"]
+
+
+def exhaustive_subgroup(prop, max_len):
+    """one fixed configuration with a sub-group argument (main: -m,--main flag, --out string; sub-group argument
+    -s,--output whose handler has -a flag, -n,--num int, -l multi-value list) x every argument vector of up to
+    max_len words over SG_EXH_VOCAB; every line without the word `--` also carries the expectation of the word-level
+    reading (gen_progargs.sg_expect).  C08: through groups (the plain key `out` and the sub-group key `output` in one
+    member: the cross-member prefix is the known open finding), both registration orders"""
+    import itertools
+    cfg = ["pa cfg begin abbr=1"] + [a.line() for a in SG_EXH_PLAIN] + SG_EXH_SUBS[0].lines() + ["pa cfg end"]
+    cases, lines = [], list(cfg)
+    for n in range(0, max_len + 1):
+        for ws in itertools.product(SG_EXH_VOCAB, repeat=n):
+            ann = "x-lbl=exh-sg"
+            if "--" not in ws:
+                ann += " x-exp=" + G.hx(G.sg_expect(SG_EXH_PLAIN, SG_EXH_SUBS, 1, ws)[0])
+            w = words_hex(ws)
+            if prop == "C08":
+                for am, sm, od in (("00", "0", "0"), ("01", "1", "01"), ("01", "1", "10"), ("10", "0", "01")):
+                    lines.append("pa group %s members=%s submembers=%s order=%s -- %s" % (ann, am, sm, od, w))
+            else:
+                lines.append("pa eval %s -- %s" % (ann, w))
+            if len(lines) > 400:
+                cases.append(Case("exhsg-%d" % len(cases), [" ".join(l.split()) for l in lines]))
+                lines = list(cfg)
+    if len(lines) > len(cfg):
+        cases.append(Case("exhsg-%d" % len(cases), [" ".join(l.split()) for l in lines]))
+    return cases
+
+
 _generate_before_glist = generate
 
 
@@ -997,6 +1430,10 @@ def generate(prop, tier, seed, scale=1):
         rng = random.Random("%s-long1-%s" % (prop, seed))
         n = (25 if tier == "quick" else 1500) * scale
         yield "generated", [onechar_long_case(rng, "long1-%d" % k) for k in range(n)]
+    if prop in ("C01", "C02", "C03", "C04", "C08"):
+        n = 2 if tier == "quick" else 3
+        yield "exhaustive argv of <= %d words over a %d-word vocabulary x the fixed sub-group configuration" % (
+            n, len(SG_EXH_VOCAB)), exhaustive_subgroup(prop, n)
     if prop == "C08":
         rng = random.Random("C08-glist-%s" % seed)
         n = (40 if tier == "quick" else 3000) * scale
